@@ -26,103 +26,28 @@ from .render_common import TargetImpl, FB_RASTERIZE, RENDER, is_call_to
 
 def check_config(rep, prog):
     cfg = prog.config
-    fb = TargetImpl(prog, FB_RASTERIZE, True)
-    rep.count("bodies_analysed", len(fb.bodies))
-
-    # ---- W1 / W1e
-    kinds = {"colour": 0, "depth": 0}
-    n_tests = 0
-    for b in fb.bodies:
-        calls, edges = fb.depth_tests(b)
-        n_tests += len(calls)
-        pass_edges = [e for _bb, tr, _fa in edges for e in tr]
-        stores = [s for s in fb.stores if s["body"] is b]
-        for s in stores:
-            kinds[s["kind"]] += 1
-            ok = bool(pass_edges) and G.guarded_by(b, s["bb"], pass_edges)
-            rep.inst("C06.W1", "%s write (%s) at %s guarded by depth-test pass edge: %s"
-                     % (s["kind"], s["how"], s["where"], ok), config=cfg)
-            if not ok:
-                rep.violate("C06.W1", "W1|%s|%s|%s" % (b.path, s["kind"], s["how"].split(":")[0]), s["where"],
-                            "%s buffer write (%s) is reachable without passing the depth test"
-                            % (s["kind"], s["how"]), config=cfg, body=b.path)
-        if calls and not edges:
-            rep.violate("C06.W1", "W1|%s|test-unused" % b.path, b.where(calls[0][0], None),
-                        "result of Context::depth_test does not control any branch", config=cfg)
-    rep.floor("C06.depth_test_calls", n_tests, 1, "calls to Context::depth_test in Framebuf::rasterize")
-    for k in ("colour", "depth"):
-        if kinds[k] == 0:
-            rep.violate("C06.W1e", "W1e|no-%s-store" % k, fb.root.where(),
-                        "Framebuf::rasterize never writes the %s buffer: a passing fragment cannot replace the stored pair" % k,
-                        config=cfg)
-
-    # ---- W2
-    for b in fb.bodies:
-        sl = fb.sl[b.path]
-        calls, _ = fb.depth_tests(b)
-        for bi, t in calls:
-            new_t = sl.operand(t["args"][1])
-            cur_t = sl.operand(t["args"][2])
-            dstores = [s for s in fb.stores if s["body"] is b and s["kind"] == "depth"]
-            for s in dstores:
-                same_val = s["value"] is not None and s["value"] == new_t
-                same_cell = s["lhs"] == cur_t
-                rep.inst("C06.W2", "depth store at %s: stored=%s tested=%s cell=%s read=%s"
-                         % (s["where"], T.show(s["value"]) if s["value"] else s["how"], T.show(new_t),
-                            T.show(s["lhs"]), T.show(cur_t)), config=cfg)
-                if not same_val:
-                    rep.violate("C06.W2", "W2|value|%s" % b.path, s["where"],
-                                "depth value stored (%s) is not the value that was tested (%s)"
-                                % (T.show(s["value"]) if s["value"] else s["how"], T.show(new_t)), config=cfg)
-                if not same_cell:
-                    rep.violate("C06.W2", "W2|cell|%s" % b.path, s["where"],
-                                "depth test reads %s but the store overwrites %s" % (T.show(cur_t), T.show(s["lhs"])),
-                                config=cfg)
-            # the current depth must be a load through a buffer element reference
-            if not (cur_t[0] == "deref"):
-                rep.violate("C06.W2", "W2|curr-not-load|%s" % b.path, b.where(bi, None),
-                            "second depth-test operand (%s) is not a load of the pixel's current depth" % T.show(cur_t),
-                            config=cfg)
-
-    # ---- W3
-    root = fb.root
-    sl = fb.sl[root.path]
-    spans = {"colour": [], "depth": []}
-    # the spans are whatever `&mut [u32]` / `&mut [f32]` values are cut out of the buffers by a range index (however they are then
-    # paired with the fragments: zip chains, a zip of two iter_mut()s, a for loop)
-    for bi, t in root.calls(lambda c: facts.callee_matches(c, "IndexMut<I> for [T]>::index_mut", "core::ops::index::IndexMut::index_mut")):
-        dst = t.get("dest")
-        if not dst or dst["p"]:
-            continue
-        ty = root.locals[dst["l"]]
-        idx_t = T.strip(sl.operand(t["args"][1]), sites=True, refs=True)
-        is_range = (idx_t[0] == "agg" and "Range" in idx_t[1]) or (idx_t[0] == "call" and idx_t[1].split(" => ")[0].endswith("Clone::clone")) or "Range" in T.show(idx_t)[:40]
-        if ty in ("&mut [u32]", "&mut [f32]") and is_range:
-            spans["colour" if ty == "&mut [u32]" else "depth"].append((bi, ("call", t["callee"]["path"], tuple(sl.operand(a) for a in t["args"]), None)))
-    rep.floor("C06.W3.spans", len(spans["colour"]) + len(spans["depth"]), 2, "buffer spans zipped with fragments()")
-
-    def norm(t):
-        t = T.strip(t)
-
-        def ren(x):
-            if isinstance(x, tuple) and x and x[0] == "field" and x[2] in ("Framebuf.color_buf", "Framebuf.depth_buf"):
-                return ("field", ren(x[1]), "Framebuf.BUF")
-            if isinstance(x, tuple):
-                return tuple(ren(y) if isinstance(y, tuple) else y for y in x)
-            return x
-        return ren(t)
-    for (_b1, c), (_b2, d) in zip(spans["colour"], spans["depth"]):
-        same = norm(c) == norm(d)
-        rep.inst("C06.W3", "colour span %s  vs depth span %s : identical cut = %s" % (T.show(c), T.show(d), same), config=cfg)
-        if not same:
-            rep.violate("C06.W3", "W3|span-mismatch", root.where(_b2, None),
-                        "colour and depth spans are cut differently: %s vs %s" % (T.show(c), T.show(d)), config=cfg)
-        for name, sp in (("colour", c), ("depth", d)):
-            flds = T.fields_in(sp)
-            if "Scanline.y" not in flds or "Scanline.xs" not in flds:
-                rep.violate("C06.W3", "W3|span-not-scanline|%s" % name, root.where(_b2, None),
-                            "%s span is not addressed by the scanline's own row and x-range: %s" % (name, T.show(sp)),
-                            config=cfg)
+    def target_block():
+        # ---- W1 / W1e / W2 / W3 by interpreting Framebuf::rasterize over the scenarios of sa/target_sem.py: whatever way the test,
+        # the shader result and the flags are combined, a buffer is written only for a fragment that passes the depth predicate, the
+        # depth stored is the depth tested, and fragment k is tested against / written to pixel x0 + k of the scanline's row in BOTH buffers
+        from . import target_sem as TS, absint as A
+        try:
+            n, findings = TS.check_target(prog, "framebuf", rep.tier == "thorough")
+        except A.Undecided as e:
+            raise common.Infra("C06.W1: Framebuf::rasterize could not be interpreted over the depth-test scenarios (%s%s)"
+                               % (e, "; in " + " < ".join(getattr(e, "stack", [])[:3]) if getattr(e, "stack", None) else ""))
+        rep.count("target_scenarios", n)
+        fbb = prog.body(FB_RASTERIZE)
+        # a deviation where a passing, shaded fragment with its flag on is not written belongs to W1e here (and to F1 in C07)
+        mine = [(("W1e" if (c == "F1" and k.endswith("not-written")) else c), k, m) for c, k, m in findings if c in ("W1", "W2", "W3") or (c == "F1" and k.endswith("not-written"))]
+        for rule, txt in (("W1", "no buffer write for a fragment that fails the depth predicate (4 predicates x 4 orders incl. unordered)"),
+                          ("W1e", "a passing, shaded fragment replaces the stored colour/depth pair when writes are on"),
+                          ("W2", "the depth stored is the depth that was tested, against the very cell that is overwritten"),
+                          ("W3", "fragment k is tested against and written to pixel x0 + k of the scanline's row in both buffers; no other cell changes")):
+            rep.inst("C06." + rule, "Framebuf::rasterize in %d scenarios: %s: %s" % (n, txt, not any(f[0] == rule for f in mine)), config=cfg)
+        for clause, key, msg in mine:
+            rep.violate("C06." + clause, "%s|%s" % (clause, key), fbb.where(), "Framebuf::rasterize: " + msg, config=cfg)
+    rep.guard(target_block)
 
     # ---- W4 depth_test semantics over orderings
     dt = prog.body("retrofire_core::render::ctx::Context::depth_test")
@@ -131,65 +56,46 @@ def check_config(rep, prog):
     for bad in res["bad"]:
         rep.violate("C06.W4", "W4|%s" % bad["case"], dt.where(), bad["msg"], config=cfg)
 
-    # ---- W5 sort placement in render(): whatever local function sorts the clip output (depth_sort(tris, mode), or one function per
-    # mode) is called under the Some(depth_sort) arm, after clipping and before the raster loop; every mode is served
-    from .rules_C01 import _only_sorts
+    # ---- W5: what the depth_sort setting does, by interpreting render() on the reference scene of sa/render_sem.py: with None the
+    # triangles are rasterised in submission order, with FrontToBack / BackToFront in ascending / descending order of their summed clip z
+    # (a triangle with negative depth included) - wherever and however the sort is written
+    from . import render_sem as RSEM, absint as A
     rn = prog.body(RENDER)
-    rsl = T.Slicer(rn)
-    clip_calls = list(rn.calls(lambda c: facts.callee_matches(c, "view_frustum::clip")))
-    fill_calls = list(rn.calls(lambda c: facts.callee_matches(c, "raster::tri_fill")))
-    rep.floor("C06.W5.anchors", min(len(clip_calls), len(fill_calls)), 1, "clip and tri_fill calls in render()")
-    clip_out = T.strip(rsl.operand(clip_calls[0][1]["args"][1]), refs=True)
-    sort_calls = []
-    for bi, t in rn.calls():
-        if not t["args"]:
-            continue
-        a0 = T.strip(rsl.operand(t["args"][0]), refs=True)
-        nm = ((t["callee"].get("res") or {}).get("path") or t["callee"]["path"])
-        if T.contains(a0, lambda s_: s_ == clip_out) and prog.lookup(nm) is not None and _only_sorts(prog, nm):
-            sort_calls.append((bi, t, nm))
-    some_e, none_e = G.option_edges(rn, rsl, lambda p: p[0] == "field" and p[2] == "Context.depth_sort")
-    DS = "retrofire_core::render::ctx::DepthSort"
-    inner = lambda p: p[0] == "field" and p[1][0] == "downcast" and T.contains(p, lambda f: f[0] == "field" and f[2] == "Context.depth_sort")  # noqa: E731
-    mode_edges = {m: G.variant_edges(prog, rn, rsl, inner, DS, m) for m in ("FrontToBack", "BackToFront")}
-    if not sort_calls:
-        rep.violate("C06.W5", "W5|no-sort", rn.where(), "render() never sorts the clip output: the depth_sort setting has no effect", config=cfg)
+
+    def order_block():
+        try:
+            n, findings = RSEM.check(prog)
+        except A.Undecided as e:
+            raise common.Infra("C06.W5: render() could not be interpreted on the reference scene (%s)" % e)
+        mine = [f for f in findings if f[0] == "order"]
+        rep.inst("C06.W5", "render() interpreted in %d (face_cull, depth_sort) settings on the reference scene: rasterisation order = submission order / ascending / descending summed depth: %s"
+                 % (n, not mine), config=cfg)
+        for _c, key, msg in mine:
+            rep.violate("C06.W5", "W5|order|%s" % key, rn.where(), msg, config=cfg)
+    rep.guard(order_block)
+    # local functions that do nothing to a slice but sort it (the comparator of each is evaluated abstractly under W7)
+    from .rules_C01 import _only_sorts
     served = {}
-    for bi, t, nm in sort_calls:
-        ok_guard = bool(some_e) and G.guarded_by(rn, bi, some_e)
-        after_clip = all(rn.dominates(cb, bi) for cb, _ in clip_calls)
-        in_loop = any(bi in rn.reachable_from_succs(fbb) for fbb, _ in fill_calls)
-        if len(t["args"]) >= 2:
-            dterm = rsl.operand(t["args"][1])
-            payload = T.contains(dterm, lambda s_: s_[0] == "downcast" and s_[2] == "Some" and T.contains(s_[1], lambda f: f[0] == "field" and f[2] == "Context.depth_sort"))
-            modes = ("FrontToBack", "BackToFront")
-        else:
-            modes = tuple(m for m, es in mode_edges.items() if es and G.guarded_by(rn, bi, es))
-            payload = len(modes) == 1
-        for m in modes:
-            served.setdefault(m, []).append((nm, len(t["args"]) >= 2))
-        rep.inst("C06.W5", "sort of the clip output by %s at %s: under Some(depth_sort) edge=%s, mode %s, after clip=%s, outside raster loop=%s"
-                 % (nm.rsplit("::", 1)[-1], rn.where(bi, None), ok_guard, "passed as argument" if len(t["args"]) >= 2 else "/".join(modes) or "UNDETERMINED", after_clip, not in_loop), config=cfg)
-        if not (ok_guard and payload and after_clip and not in_loop):
-            rep.violate("C06.W5", "W5|sort-shape", rn.where(bi, None),
-                        "the clip output is sorted outside 'if let Some(d) = ctx.depth_sort', without the selected mode, before clipping or inside the raster loop "
-                        "(guard=%s mode=%s after_clip=%s in_loop=%s)" % (ok_guard, payload, after_clip, in_loop), config=cfg)
-    if sort_calls:
-        for m in ("FrontToBack", "BackToFront"):
-            if m not in served:
-                rep.violate("C06.W5", "W5|mode-unserved|%s" % m, rn.where(), "no sort of the clip output is performed for DepthSort::%s" % m, config=cfg)
-    # the loop iterates the clip output
-    it = list(rn.calls(lambda c: facts.callee_matches(c, "IntoIterator::into_iter")))
-    loop_ok = False
-    if clip_calls:
-        clip_out = T.strip(rsl.operand(clip_calls[0][1]["args"][1]), refs=True)
-        for bi, t in it:
-            a = T.strip(rsl.operand(t["args"][0]), refs=True)
-            if a == clip_out and any(fbb in rn.reachable_from_succs(bi) for fbb, _ in fill_calls):
-                loop_ok = True
-    rep.inst("C06.W5", "raster loop iterates the vector filled by view_frustum::clip: %s" % loop_ok, config=cfg)
-    if not loop_ok:
-        rep.violate("C06.W5", "W5|loop-source", rn.where(), "the rasterisation loop does not iterate the clip output", config=cfg)
+    DS = "retrofire_core::render::ctx::DepthSort"
+    for fb_ in prog.family(RENDER):
+        fsl = T.Slicer(fb_)
+        inner = lambda p: p[0] == "field" and p[1][0] == "downcast" and T.contains(p, lambda f: f[0] == "field" and f[2] == "Context.depth_sort")  # noqa: E731
+        mode_edges = {m: G.variant_edges(prog, fb_, fsl, inner, DS, m) for m in ("FrontToBack", "BackToFront")}
+        for bi, t in fb_.calls():
+            if not t["args"]:
+                continue
+            nm = ((t["callee"].get("res") or {}).get("path") or t["callee"]["path"])
+            if prog.lookup(nm) is None or not _only_sorts(prog, nm):
+                continue
+            if len(t["args"]) >= 2:
+                for m in ("FrontToBack", "BackToFront"):
+                    served.setdefault(m, []).append((nm, True))
+            else:
+                for m, es in mode_edges.items():
+                    if es and G.guarded_by(fb_, bi, es):
+                        served.setdefault(m, []).append((nm, False))
+    if not served:
+        rep.notes.append("C06.W7: no separate sort function in render() (the sort is written inline): its comparator is exercised on the reference scene under W5 only")
 
     # ---- W6 who-may-touch the target in render()
     fam = prog.family(RENDER)
